@@ -16,7 +16,10 @@ L4 == << B(0, 1, {0, 1}, "v2"), B(2, 4, {}, "v2") >>
 L5 == << BC(0, 2, {0, 1}), BC(3, 5, {3, 4, 5}), B(6, 7, {7}, "v2") >>
 
 Base == [log |-> L1, logStart |-> 0, hw |-> 6, start |-> -2, qcap |-> 1, maxFaults |-> 2,
-         setOffsets |-> 1, setTargets |-> {1, 4}, bug |-> "none"]
+         setOffsets |-> 1, setTargets |-> {1, 4}, grow |-> <<>>, bug |-> "none"]
+\* the log grows while the reader is positioned at its end (twice: what a skipped stretch is followed by must be delivered to be seen)
+G1 == << B(6, 7, {6, 7}, "v2"), B(8, 9, {8, 9}, "v2") >>
+Growing == [Base EXCEPT !.start = -1, !.grow = G1, !.setOffsets = 0, !.maxFaults = 1]
 
 Configs ==
   { Base,
@@ -27,12 +30,19 @@ Configs ==
     [Base EXCEPT !.log = L3, !.hw = 7, !.start = 1, !.logStart = 1, !.setOffsets = 0],
     [Base EXCEPT !.log = L4, !.hw = 5, !.setTargets = {-1, 3}],
     [Base EXCEPT !.log = L1, !.start = -1, !.setTargets = {-2}],
-    [Base EXCEPT !.log = L5, !.hw = 8, !.setTargets = {2}] }
+    [Base EXCEPT !.log = L5, !.hw = 8, !.setTargets = {2}],
+    Growing, [Growing EXCEPT !.maxFaults = 2, !.qcap = 2],
+    [Growing EXCEPT !.start = -2, !.setOffsets = 1, !.setTargets = {-1}] }
 ConfigsQuick == { Base, [Base EXCEPT !.log = L2, !.hw = 8, !.start = 3, !.setOffsets = 0],
-                  [Base EXCEPT !.log = L3, !.hw = 7, !.setTargets = {1}] }
+                  [Base EXCEPT !.log = L3, !.hw = 7, !.setTargets = {1}], Growing }
 
 \* vacuity guard: with the defect of finding F3 the model must fail
 ConfigsDefect == { [Base EXCEPT !.log = L2, !.hw = 8, !.start = 3, !.setOffsets = 0, !.bug = "emptyBatchZero"] }
+\* ... and with these: a position resolved again after a reconnect / a reconnect that forgets the position reached /
+\* a call with a done context that throws a message away
+ConfigsDefectReResolve == { [Growing EXCEPT !.bug = "reResolve"] }
+ConfigsDefectRestart == { [Growing EXCEPT !.bug = "restartFromStart"] }
+ConfigsDefectCancel == { [Base EXCEPT !.setOffsets = 0, !.maxFaults = 0, !.bug = "cancelDrops"] }
 CONSTANT ConfigSet
 MCInit == cfg \in ConfigSet /\ Init
 MCSpec == MCInit /\ [][Next]_vars
